@@ -115,7 +115,7 @@ impl SentinelRule for Rule {
 
 impl Hash for Rule {
     fn hash<H: Hasher>(&self, state: &mut H) {
-        self.id.hash(state);
+        // only fields that `eq` compares: equal rules must hash alike (the id is not part of equality)
         self.metric_type.hash(state);
     }
 }
